@@ -1,4 +1,5 @@
 import Setec.Model.Updater
+import Setec.Model.Watchers
 import Setec.Generated.Facts
 import Setec.Proofs.Updater2
 /-!
@@ -162,13 +163,154 @@ example : ∃ s, run init [.initRead, .initBuild, .install, .install, .install, 
     s.valueSrc = 3 ∧ s.pending = false ∧ s.closed = [1] ∧ s.builds = 2 := by
   refine ⟨_, rfl, ?_⟩; decide
 
-/-- T1: `Updater.Get` is one critical section - lock, deferred unlock, and the builder runs
-inside it with no unlock in between - so the model's drain / read / build sub-steps of one Get
-cannot interleave with another Get's (the `Ev` sequences above are per-Get atomic). -/
+/-! ### several updaters on one secret, created while updates are in flight -/
+
+/-- a sub-step of NewUpdater / Get does not touch the store's install counter -/
+theorem step_cur (w w' : State) (e : Ev) (he : e ≠ .install) (h : step w e = some w') : w'.cur = w.cur := by
+  cases e with
+  | install => exact absurd rfl he
+  | initRead => simp only [step] at h; split at h <;> simp at h; subst h; rfl
+  | initBuild => simp only [step] at h; split at h <;> simp at h; subst h; rfl
+  | drain =>
+    simp only [step] at h
+    split at h
+    · split at h <;> (simp at h; subst h; rfl)
+    · cases h
+  | readCur => simp only [step] at h; split at h <;> simp at h; subst h; rfl
+  | build ok =>
+    simp only [step] at h
+    split at h
+    · cases ok <;> (simp at h; subst h; rfl)
+    · cases h
+
+/-- the system invariant: every registered updater satisfies `Inv`, and the installs it has been
+notified of are exactly those since its registration -/
+def SysInv (s : Watchers.Sys) : Prop := ∀ p ∈ s.ws, Inv p.2 ∧ p.1 + p.2.cur = s.installs
+
+theorem sys_inv_init : SysInv Watchers.init := by
+  intro p hp; simp [Watchers.init] at hp
+
+theorem sys_inv_step (s s' : Watchers.Sys) (e : Watchers.Ev) (h : SysInv s)
+    (hs : Watchers.step false s e = some s') : SysInv s' := by
+  cases e with
+  | install =>
+    simp only [Watchers.step, Option.some.injEq] at hs; subst hs
+    intro p hp
+    simp only [List.mem_map] at hp
+    obtain ⟨q, hq, rfl⟩ := hp
+    have hq' := h q hq
+    refine ⟨inv_step q.2 _ .install hq'.1 rfl, ?_⟩
+    show q.1 + (q.2.cur + 1) = s.installs + 1
+    omega
+  | register =>
+    simp only [Watchers.step, Option.some.injEq] at hs; subst hs
+    intro p hp
+    simp only [List.mem_append, List.mem_singleton] at hp
+    rcases hp with hp | rfl
+    · exact h p hp
+    · exact ⟨inv_init, by simp [Updater.init]⟩
+  | upd i e =>
+    simp only [Watchers.step] at hs
+    split at hs
+    · cases hs
+    · next hne =>
+      split at hs
+      · cases hs
+      · next p hp =>
+        split at hs
+        · cases hs
+        · next w' hw =>
+          simp only [Option.some.injEq] at hs; subst hs
+          intro q hq
+          rcases List.mem_or_eq_of_mem_set hq with hq | rfl
+          · exact h q hq
+          · have hp' := h p (List.mem_of_getElem? hp)
+            exact ⟨inv_step p.2 w' e hp'.1 hw, by rw [step_cur p.2 w' e hne hw]; exact hp'.2⟩
+  | registerLate r => simp [Watchers.step] at hs
+
+theorem sys_inv_run (es : List Watchers.Ev) (s s' : Watchers.Sys) (h : SysInv s)
+    (hr : Watchers.run false s es = some s') : SysInv s' := by
+  induction es generalizing s with
+  | nil => simp [Watchers.run] at hr; subst hr; exact h
+  | cons e es ih =>
+    simp only [Watchers.run] at hr
+    split at hr
+    · next s1 hs1 => exact ih s1 (sys_inv_step s s1 e h hs1) hr
+    · cases hr
+
+/-- Any number of updaters on one secret, each created at any moment - before, between or
+during installs - and each one's NewUpdater and Gets cut into sub-steps that interleave freely
+with installs and with the other updaters' sub-steps: in every reachable state, every updater
+that is at rest either has a notification pending or its last (re)build read the newest
+install *of the store* (`base + lastRead = installs`), and none has closed its current value
+or closed a value twice. -/
+theorem every_updater_no_lost_update (es : List Watchers.Ev) (s : Watchers.Sys)
+    (hr : Watchers.run false Watchers.init es = some s) (p : Nat × State) (hp : p ∈ s.ws) :
+    (p.2.phase = .idle → p.2.pending = true ∨ p.1 + p.2.lastRead = s.installs) ∧
+    p.2.closed.Nodup ∧ p.2.valueId ∉ p.2.closed := by
+  have hi := sys_inv_run es Watchers.init s sys_inv_init hr p hp
+  refine ⟨fun hidle => ?_, hi.1.2.2.2.2.2.1, hi.1.2.2.2.2.1⟩
+  rcases hi.1.1 hidle with h | h
+  · exact Or.inl h
+  · exact Or.inr (by rw [h]; exact hi.2)
+
+/-- non-vacuity: two updaters, the second created between two installs while the first is in
+the middle of a Get; both end up on the store's install 2 (base + valueSrc = 2), the first
+with a notification still pending from the install that overtook its Get -/
+example : ∃ s, Watchers.run false Watchers.init
+    [.register, .upd 0 .initRead, .upd 0 .initBuild, .install, .upd 0 .drain, .register, .install,
+     .upd 1 .initRead, .upd 0 .readCur, .upd 1 .initBuild, .upd 0 (.build true),
+     .upd 1 .drain, .upd 1 .readCur, .upd 1 (.build true)] = some s ∧
+    s.installs = 2 ∧ s.ws.map (fun p => (p.1, p.2.valueSrc, p.2.pending, p.2.phase)) =
+      [(0, 2, true, .idle), (1, 1, false, .idle)] := by
+  refine ⟨_, rfl, ?_⟩; decide
+
+/-- ...and registering before the first read is what makes it so: a watcher that is added to
+the store's list only after its initial bytes were read (`registerLate`) misses an install that
+falls in between - it is at rest with nothing pending and a value built from old bytes. -/
+theorem late_registration_loses_update :
+    ∃ es s p, Watchers.run true Watchers.init es = some s ∧ p ∈ s.ws ∧ p.2.phase = .idle ∧
+      p.2.pending = false ∧ p.1 + p.2.lastRead ≠ s.installs :=
+  ⟨[.install, .registerLate 0, .upd 0 .initBuild], _, _, rfl, List.mem_singleton.mpr rfl, by decide, by decide, by decide⟩
+
+/-- T1: `Updater.Get` is one critical section - lock, deferred unlock, and the channel check,
+the read of the secret and the builder all run inside it, in that order, with no unlock in
+between - so the model's drain / read / build sub-steps of one Get cannot interleave with
+another Get's (the `Ev` sequences above are per-Get atomic). -/
 theorem fact_get_atomic :
-    Facts.storeLockTokens.lookup "Updater.Get" = some ["lock:mu", "defer-unlock:mu", "build"] ∧
+    Facts.storeLockTokens.lookup "Updater.Get" = some ["lock:mu", "defer-unlock:mu", "drain", "read", "build"] ∧
     Facts.storeLockTokens.lookup "Updater.Err" = some ["lock:mu", "defer-unlock:mu"] := by
   decide
+
+/-- scan a function's tokens: every occurrence of `tok` happens while `active` is held
+(function literals are scopes of their own, as in C12's scan) -/
+def onlyUnderLock (tok : String) : List String → List Bool → Bool
+  | [], _ => true
+  | t :: ts, st =>
+    if t == "func{" then onlyUnderLock tok ts (false :: st)
+    else if t == "}" then onlyUnderLock tok ts st.tail
+    else if t == "lock:active" then onlyUnderLock tok ts (true :: st.tail)
+    else if t == "unlock:active" then onlyUnderLock tok ts (false :: st.tail)
+    else if t == tok then st.head? == some true && onlyUnderLock tok ts st
+    else onlyUnderLock tok ts st
+
+/-- T1, the atomic steps of `Watchers.step` are the code's critical sections and orders:
+* NewUpdater obtains its watcher (registration) before it reads the initial bytes, and builds
+  last - the model's `register`, `initRead`, `initBuild`, never `registerLate`;
+* the watcher is appended to the store's list, a new value is installed, and watchers are
+  notified only while the store's lock is held - nowhere else in the client - and
+  applyUpdates installs then notifies inside one critical section (`install` is one step). -/
+theorem fact_watch_order :
+    Facts.storeLockTokens.lookup "NewUpdater" = some ["watch", "read", "build"] ∧
+    Facts.storeLockTokens.all (fun f => onlyUnderLock "register" f.2 [false] &&
+      onlyUnderLock "install" f.2 [false] && onlyUnderLock "notify" f.2 [false]) = true ∧
+    (Facts.storeLockTokens.filter fun f => f.2.contains "register").map (·.1) = ["Store.lookupWatcher"] ∧
+    Facts.storeLockTokens.lookup "Store.applyUpdates" =
+      some ["lock:active", "defer-unlock:active", "install", "notify", "flush"] := by
+  decide
+
+/-- the scan is not vacuous: a registration after the lock was given up is rejected -/
+example : onlyUnderLock "register" ["lock:active", "unlock:active", "register"] [false] = false := by decide
 
 /-! ### concurrent Get callers -/
 
